@@ -1,11 +1,11 @@
 """C03: the three deduplication schemes form a hierarchy (composition equalities)."""
-from pysx.api import sym_str, cat
+from pysx.api import sym_str, cat, HEXDOM
 from pysx.harness import run_prop
 from spec import c03 as S
 from checks.nskel import SKELETONS, LONG
 
 BOUNDS = {
-    "quick": "18 URL skeletons x every hole string of length 0..1 (0..2 for the path, query-key, query-escape, redirect and host-prefix holes) over all code points x quoted / strip_suffix in {F,T}; platform_aware=False",
+    "quick": "18 URL skeletons x every hole string of length 0..1 (0..2 for the query-escape, redirect and the two path holes after a '%') over all code points (hex digits only for the two holes that follow a '%' in the path) x quoted / strip_suffix in {F,T}; platform_aware=False",
     "thorough": "holes of length 0..2 (3 for path / query / fragment / redirect holes)",
 }
 STUBS = ["see C01 (urlsplit etc. interpreted; UTF-8 / quote / table models; NFKC and idna cuts)"]
@@ -16,13 +16,14 @@ ASSUMPTIONS = ["inputs on which a function raises are skipped here (never-raises
 
 def hier(st, skel, n, flag):
     name, pre, post = SKELETONS[skel]
-    u = cat(pre, sym_str(st, "s", n), post)
+    # right after a '%' the interesting fillers are hex digits: restrict the hole to them (stated in BOUNDS)
+    u = cat(pre, sym_str(st, "s", n, HEXDOM if name.startswith("path-escape") else None), post)
     run_prop(st, "normalize_after_canonicalize", S.normalize_after_canonicalize, u, flag, False)
     run_prop(st, "fingerprint_after_canonicalize", S.fingerprint_after_canonicalize, u, flag, False)
     run_prop(st, "fingerprint_after_normalize", S.fingerprint_after_normalize, u, flag, False)
 
 
-N2 = ("path-escape-index", "path-escape-amp", "youtube-lang", "path", "query-key", "query-escape", "redirect", "host-prefix")
+N2 = ("path-escape-index", "path-escape-amp", "query-escape", "redirect")
 
 
 def items(tier):
@@ -35,7 +36,7 @@ def items(tier):
             nmax = 3 if name in LONG else 2
         for n in range(0, nmax + 1):
             for flag in (False, True):
-                if quick and n == 2 and flag != (i % 2 == 0):
+                if quick and n >= 1 and flag != (i % 2 == 0):
                     continue
                 it = {"fn": "hier", "params": {"skel": i, "n": n, "flag": flag}, "name": "%s n=%d flag=%s" % (name, n, flag), "weight": 8 ** n}
                 if n >= 2:
